@@ -13,6 +13,12 @@ Implementation entry points driven (real code from $VERIF_REPO/src):
       get_volume, per-frame PlanePositionSlideSequence,
   volumes whose affine lives in a caller-owned buffer (dtype / memory layout / entry point)
       that the caller keeps using after the volume was constructed (histories),
+  pixel arrays that are numpy VIEWS (transposed / Fortran order / negative strides / strided / window of a
+      larger block / read-only; uint8, uint16, bool, float32, float64) handed over as a plain array aligned
+      with the sources, as the total pixel matrix of a tiled segmentation, inside hd.Volume(...) /
+      VolumeGeometry.with_array(...), or produced by Volume.permute_spatial_axes / swap_spatial_axes /
+      to_patient_orientation / flip_spatial / __getitem__ / copy, encoded with a native (explicit / implicit
+      VR) or encapsulated (RLE, JPEG-LS) transfer syntax; malformed permute / swap / flip calls,
   hd.seg.create_segmentation_pyramid(...) from one source + down-sampling factors, and (downsample_factors=None)
       from several source images of one pyramid with one or with as many masks, and from one source image
       with several masks,
@@ -54,14 +60,24 @@ MODELLED = ('image.py _standardize_slice_indices, _standardize_row_column_indice
             'plain (non-segmentation) CT images read through hd.Image go through the same model functions '
             '(a `stored` record built from the frames the image holds, no spacing inference at construction). '
             'vol_hist cases are compared against the history-free model term (the model has value semantics: '
-            'aliasing of caller-owned buffers, dtypes and memory layouts are outside the model)')
+            'aliasing of caller-owned buffers, dtypes and memory layouts are outside the model). '
+            'volume.py permute_spatial_axes / swap_spatial_axes / flip_spatial (guards, permuted / negated affine '
+            'columns, moved origin, rearranged array; to_patient_orientation as flip_spatial then '
+            'permute_spatial_axes with the permutation and flips of the case): vol_mem cases that go through these '
+            'calls give the model the volume the calls START from. *_mem cases are otherwise compared against the '
+            'layout-free model term: memory layout (strides, order, offset), dtype and transfer syntax of the pixel '
+            'array are NOT inputs of the model (value semantics), Volume.__getitem__ with steps of +-1 / copy / '
+            'with_array are compared through the volume they result in')
 STRATA = ['std_slice', 'std_slice_err', 'std_rc', 'std_rc_err', 'vol', 'vol_sub', 'vol_sub_err', 'src', 'src_irregular',
           'src_img',
           'tiled', 'tiled_err', 'pyramid', 'pyramid_err', 'pyr_multi', 'pyr_multi_err', 'tiled_place',
-          'tiled_place_err', 'vol_hist']
+          'tiled_place_err', 'vol_hist', 'vol_mem', 'vol_mem_err', 'src_mem', 'tiled_mem', 'tiled_place_mem']
 NOT_EXECUTED = ['several focal planes in tiled images',
                 'pyramids with sop_instance_uids / segment channels (rank 4) in the several-sources modes',
-                'get_volume with rtol/atol other than the defaults']
+                'get_volume with rtol/atol other than the defaults',
+                'JPEG 2000 (no codec installed); JPEG-LS frames with fewer than 5 rows / columns (pyjpegls cannot '
+                'encode them); workers != 0 (frames encoded in a process pool); pixel arrays of dtypes the '
+                'constructor refuses (signed / 32-64 bit integers, big-endian)']
 RULE = ('std_*: exhaustive small cube of (start, end, n, as_indices) in all argument forms; vol: 48 signed axis '
         'permutations + rational oblique rotations x both handednesses x dyadic anisotropic spacings x positions x '
         'label maps with leading/interior/trailing empty slices x omit x segmentation type x channel/labelmap input x '
@@ -78,7 +94,15 @@ RULE = ('std_*: exhaustive small cube of (start, end, n, as_indices) in all argu
         'plane_positions entry x omit x TILED_FULL/SPARSE; vol_hist: entry point (Volume, VolumeGeometry.with_array, '
         'from_components) x affine buffer dtype/layout (float64 C/F/strided view/offset view, float32, int64, '
         'big-endian) x what the caller does to the buffer afterwards (retarget, translate, scale, flip, swap, zero, '
-        'nothing) x writes through arrays returned by properties. '
+        'nothing) x writes through arrays returned by properties; '
+        'vol_mem / src_mem / tiled_mem / tiled_place_mem: memory layout of the pixel array (base block allocated '
+        'with its axes in any order - C, Fortran, in-plane transposed, any permutation incl. the channel axis - x '
+        'reversed axes x steps 1-3 x offsets into a larger block filled with 1s x read-only) x dtype (uint8, uint16, '
+        'bool, float32, float64 where admissible) x transfer syntax (explicit, implicit, RLE, JPEG-LS from 5 x 5) x '
+        'frames of 1-6 rows / columns (mostly non-square) x for volumes the Volume API call that produced the '
+        'volume (none, permute_spatial_axes, swap_spatial_axes, to_patient_orientation, flip_spatial, __getitem__ '
+        'with reversed axes, VolumeGeometry.with_array, copy) - each layout preset and each call at least once; '
+        'vol_mem_err: permute / swap / flip with a non-permutation, a missing axis, twice the same axis. '
         'non-trivial = more than one slice/voxel or a refusal; distinct by case hash')
 EXHAUSTIVE = {'quick': False, 'thorough': False}
 
@@ -203,10 +227,10 @@ def _sub_args(rng, n0, rows, cols, bad=False):
     return out
 
 
-def _vol_case(rng, kind):
+def _vol_case(rng, kind, rmax=4):
     S = rng.choice([1, 2, 3, 3, 4, 5, 6])
-    R = rng.randint(1, 4)
-    C = rng.randint(1, 4)
+    R = rng.randint(1, rmax)
+    C = rng.randint(1, rmax)
     if R * C == 1:
         C = 2
     typ = rng.choice(['BINARY', 'BINARY', 'LABELMAP', 'LABELMAP', 'FRACTIONAL'])
@@ -584,6 +608,182 @@ def _hist_case(rng, entry=None, layout=None, mutate=None):
 
 
 # ---------------------------------------------------------------------------------------------
+# memory layout / provenance of the pixel array handed to the constructor
+# ---------------------------------------------------------------------------------------------
+_MEM_PRESETS = ['C', 'F', 'inplane', 'perm', 'perm', 'neg', 'step', 'window', 'mixed', 'mixed', 'mixed']
+_MEM_OPS = [None, None, 'permute', 'permute', 'swap', 'tpo', 'flip', 'crop', 'with_array']
+_TPO_ROTS = [ROTS[0], ROTS[1], ROTS[3]]          # no direction at 45 degrees to a patient axis
+_TS = {'explicit': '1.2.840.10008.1.2.1', 'implicit': '1.2.840.10008.1.2', 'rle': '1.2.840.10008.1.2.5',
+       'jpegls': '1.2.840.10008.1.2.4.80'}
+
+
+def _mem_lay(rng, ndim, preset=None):
+    """How the values of an array are laid out in the caller's memory: a base block allocated C-contiguously
+    with its axes in the order q (q = identity: C order, reversed: Fortran order / `.T` of an array built the
+    other way round), seen through np.transpose and through reversed / strided / offset slices."""
+    preset = preset or rng.choice(_MEM_PRESETS)
+    q = list(range(ndim))
+    flips, steps, pads = [False] * ndim, [1] * ndim, [[0, 0] for _ in range(ndim)]
+    if preset == 'F':
+        q.reverse()
+    elif preset == 'inplane':
+        q[1], q[2] = q[2], q[1]
+    elif preset in ('perm', 'mixed'):
+        rng.shuffle(q)
+    if preset in ('neg', 'mixed'):
+        flips = [rng.random() < 0.5 for _ in range(ndim)]
+    if preset in ('step', 'mixed'):
+        steps = [rng.choice([1, 1, 2, 3]) for _ in range(ndim)]
+    if preset in ('window', 'mixed'):
+        pads = [[rng.randint(0, 2), rng.randint(0, 2)] for _ in range(ndim)]
+    return {'preset': preset, 'q': q, 'flips': flips, 'steps': steps, 'pads': pads, 'ro': rng.random() < 0.15}
+
+
+def _mem_dt_ts(rng, typ, one_valued, rows, cols):
+    """dtype of the caller's array and transfer syntax of the segmentation"""
+    if typ == 'FRACTIONAL':
+        dts = ['u1', 'u1', 'f4', 'f8', 'b1']
+    else:
+        dts = ['u1', 'u1', 'u1', 'u2'] + (['b1', 'f4', 'f8'] if one_valued else [])
+    tss = ['explicit', 'explicit', 'explicit', 'implicit']
+    if typ != 'BINARY':
+        # (pyjpegls cannot encode most frames with fewer than 5 rows / columns, whatever their layout)
+        tss += ['rle'] + (['jpegls', 'jpegls'] if min(rows, cols) >= 5 else [])
+    return rng.choice(dts), rng.choice(tss)
+
+
+def _mem_vol_case(rng, op='any', preset=None):
+    """A volume whose pixel array is a numpy VIEW (transposed / reversed / strided / offset, any accepted dtype)
+    or that is the result of Volume API calls that return such views (permute_spatial_axes, swap_spatial_axes,
+    to_patient_orientation, flip_spatial, __getitem__, VolumeGeometry.with_array); the fields of _vol_case
+    describe the volume V finally handed to the constructor."""
+    c = _vol_case(rng, 'vol_mem', rmax=5)
+    if c['typ'] != 'BINARY' and rng.random() < 0.2:      # frames large enough for JPEG-LS
+        c['R'], c['C'] = rng.choice([5, 6]), rng.choice([5, 6])
+        c['arr'] = _label_array(rng, c['S'], c['R'], c['C'], c['nseg'])
+    op = rng.choice(_MEM_OPS) if op == 'any' else op
+    if op == 'tpo':
+        d = rng.choice(SIGNED_PERMS)
+        if rng.random() < 0.5:
+            M = rng.choice(_TPO_ROTS)
+            d = tuple(_matvec(M, v) for v in d)
+        c['d'] = [_fs(v) for v in d]
+    p, flips, crop, ab = [0, 1, 2], [], None, None
+    if op in ('permute', 'tpo'):
+        p = rng.choice([list(x) for x in itertools.permutations(range(3))][0 if op == 'tpo' else 1:])
+        flips = [a for a in range(3) if rng.random() < 0.3]
+    elif op == 'swap':
+        a, b = ab = rng.choice([(0, 1), (0, 2), (1, 2), (2, 1), (1, 0)])
+        p[a], p[b] = b, a
+    elif op == 'flip':
+        flips = rng.choice([[0], [1], [2], [1, 2], [0, 2], [0, 1, 2]])
+    elif op == 'crop':
+        crop = [[rng.randint(0, 2), rng.randint(0, 2), rng.random() < 0.3] for _ in range(3)]
+    dt, ts = _mem_dt_ts(rng, c['typ'], c['nseg'] == 1 or c['chan4d'], c['R'], c['C'])
+    c['mem'] = {'lay': _mem_lay(rng, 4 if c['chan4d'] else 3, preset), 'dt': dt, 'ts': ts, 'op': op, 'p': p,
+                'flips': flips, 'crop': crop, 'ab': ab, 'copy': rng.random() < 0.08}
+    return c
+
+
+def _mem_vol_err_case(rng):
+    """a malformed Volume API call (not a permutation, an axis that does not exist, twice the same axis)"""
+    c = _mem_vol_case(rng, op=None)
+    m = c['mem']
+    m['bad'] = True
+    m['op'] = rng.choice(['permute', 'swap', 'flip'])
+    if m['op'] == 'permute':
+        m['p'] = rng.choice([[0, 0, 1], [0, 1, 3], [1, 2], [2, 1, 0, 0], [-1, 0, 1], [1, 2, 3], [2, 2, 2]])
+    elif m['op'] == 'swap':
+        m['ab'] = rng.choice([(1, 1), (0, 3), (-1, 2), (3, 0), (0, 0), (2, -2)])
+    else:
+        m['flips'] = rng.choice([[3], [0, -1], [0, 0, 1, 1], [0, 1, 2, 2], [1, 4]])
+    c['kind'] = 'vol_mem_err'
+    return c
+
+
+def _mem_src_case(rng, preset=None):
+    """pixel array aligned with a stack of source images, handed over as a numpy view"""
+    c = _src_case(rng, False)
+    c['kind'] = 'src_mem'
+    dt, ts = _mem_dt_ts(rng, c['typ'], c['nseg'] == 1, c['R'], c['C'])
+    c['mem'] = {'lay': _mem_lay(rng, 3, preset), 'dt': dt, 'ts': ts}
+    return c
+
+
+def _mem_tiled_case(rng, placed, preset=None):
+    """total pixel matrix of a tiled segmentation handed over as a numpy view"""
+    if placed:
+        c = _place_case(rng)
+        c['kind'] = 'tiled_place_mem'
+        th, tw = c['tile'] or (c['th'], c['tw'])
+    else:
+        c = _tiled_case(rng, False)
+        c.update({'kind': 'tiled_mem', 'api': 'seg'})
+        th, tw = c['th'], c['tw']
+    dt, ts = _mem_dt_ts(rng, c['typ'], True, th, tw)
+    c['mem'] = {'lay': _mem_lay(rng, 3, preset), 'dt': dt, 'ts': ts}
+    return c
+
+
+def _closest_orientation(d):
+    """patient orientation string of a volume with (unambiguous) axis directions d: the letter of the patient
+    axis every volume axis is closest to (x -> L, y -> P, z -> H; R, A, F for the opposite directions)"""
+    out = ''
+    for v in d:
+        v = [F(x) for x in v]
+        i = max(range(3), key=lambda j: abs(v[j]))
+        out += 'LPH'[i] if v[i] > 0 else 'RAF'[i]
+    return out
+
+
+def _vapi_source(c, arrs):
+    """The volume W that the Volume API operation of a 'vol_mem' case is applied to - exact position, axis
+    directions and spacings, and the given numpy arrays of V (spatial axes first) rearranged to W's axes -
+    such that the operation turns W into the volume V the case describes; plus the index for 'crop'."""
+    import numpy as np
+    m = c['mem']
+    pos = [F(x) for x in c['pos']]
+    d = [[F(x) for x in v] for v in c['d']]
+    sp = [F(x) for x in c['sp']]
+    index = None
+    if m.get('bad'):
+        pass                      # a malformed call: made on the volume of the case itself
+    elif m['op'] in ('permute', 'swap', 'tpo', 'flip'):
+        p = m['p']
+        inv = [p.index(a) for a in range(3)]
+        d = [d[inv[a]] for a in range(3)]
+        sp = [sp[inv[a]] for a in range(3)]
+        arrs = [x.transpose(inv + list(range(3, x.ndim))) for x in arrs]
+        for a in m['flips']:
+            n = arrs[0].shape[a]
+            pos = [pos[i] + (n - 1) * sp[a] * d[a][i] for i in range(3)]
+            d[a] = [-x for x in d[a]]
+            arrs = [np.flip(x, axis=a) for x in arrs]
+    elif m['op'] == 'crop':
+        index = []
+        shape = list(arrs[0].shape[:3])
+        for k, (before, after, neg) in enumerate(m['crop']):
+            n = shape[k]
+            if neg:
+                start = before + n - 1
+                index.append(slice(start, before - 1 if before > 0 else None, -1))
+                pos = [pos[i] + start * sp[k] * d[k][i] for i in range(3)]
+                d[k] = [-x for x in d[k]]
+            else:
+                index.append(slice(before, before + n))
+                pos = [pos[i] - before * sp[k] * d[k][i] for i in range(3)]
+            shape[k] = before + n + after
+        index = tuple(index)
+        big = []
+        for x in arrs:
+            b = np.ones(tuple(shape) + x.shape[3:], dtype=x.dtype)
+            b[index] = x
+            big.append(b)
+        arrs = big
+    return pos, d, sp, arrs, index
+
+
+# ---------------------------------------------------------------------------------------------
 # independent statement of the documented argument conventions
 # ---------------------------------------------------------------------------------------------
 def _doc_bound(v, n, as_idx, is_end):
@@ -686,6 +886,26 @@ def gen_cases(rng, tier):
                                     mutate=rng.choice(['retarget', 'translate', 'scale', 'flip', 'swap', 'zero'])))
     for _ in range((nv * 2) // 3):
         cases.append(_hist_case(rng))
+    # ---- pixel arrays that are numpy views / results of Volume API calls (memory layout), dtype, transfer syntax --
+    for preset in ('F', 'inplane', 'perm', 'neg', 'step', 'window', 'C'):
+        cases.append(_mem_vol_case(rng, op=None, preset=preset))
+    for op in ('permute', 'swap', 'tpo', 'flip', 'crop', 'with_array'):
+        for preset in ('C', 'mixed'):
+            cases.append(_mem_vol_case(rng, op=op, preset=preset))
+    for _ in range(nv):
+        cases.append(_mem_vol_case(rng))
+    for _ in range(nv // 8):
+        cases.append(_mem_vol_err_case(rng))
+    for preset in ('F', 'inplane'):
+        cases.append(_mem_src_case(rng, preset))
+        cases.append(_mem_tiled_case(rng, False, preset))
+        cases.append(_mem_tiled_case(rng, True, preset))
+    for _ in range(nv // 3):
+        cases.append(_mem_src_case(rng))
+    for _ in range(nv // 4):
+        cases.append(_mem_tiled_case(rng, False))
+    for _ in range(nv // 4):
+        cases.append(_mem_tiled_case(rng, True))
     return cases
 
 
@@ -758,8 +978,12 @@ def _build_seg(c, info=None):
             chans = {'SegmentNumber': list(range(1, nseg + 1))}
         else:
             arr = lab
+        watch = []
         if c['kind'] == 'vol_hist':
             pix, watch = _hist_volume(c, arr, A, src[0].FrameOfReferenceUID, chans)
+            watch = list(watch) + [arr]
+        elif c['kind'] in ('vol_mem', 'vol_mem_err'):
+            pix, watch = _mem_volume(c, _mem_cast(arr, c), src[0].FrameOfReferenceUID, chans)
         else:
             pix = hd.Volume(arr, A, coordinate_system='PATIENT', frame_of_reference_uid=src[0].FrameOfReferenceUID,
                             channels=chans)
@@ -781,18 +1005,21 @@ def _build_seg(c, info=None):
                 first = ds
                 ds.SeriesInstanceUID = synth.uid()
             src.append(ds)
-        pix = lab
+        pix, watch = lab, []
+        if c['kind'] == 'src_mem':
+            pix, base = _mem_array(_mem_cast(lab, c), c['mem']['lay'])
+            watch = [base]
     kw = {}
     if typ == 'FRACTIONAL':
         kw['max_fractional_value'] = 1 if False else 255
-    if c['kind'] == 'vol_hist':
-        before = [w.copy() for w in watch] + [arr.copy()]
+    if c.get('mem'):
+        kw['transfer_syntax_uid'] = _TS[c['mem']['ts']]
+    before = [w.copy() for w in watch]
     seg = synth.make_seg(src, pix, typ, list(range(1, nseg + 1)), omit_empty_frames=c['omit'], **kw)
-    if c['kind'] == 'vol_hist' and info is not None:
-        # the encoder leaves the caller's buffers and pixel array as they were
-        after = list(watch) + [arr]
+    if watch and info is not None:
+        # the encoder leaves the caller's buffers and pixel array (the whole memory block behind it) as they were
         info['untouched'] = all(a.dtype == b.dtype and np.array_equal(a, b, equal_nan=True)
-                                for a, b in zip(after, before))
+                                for a, b in zip(watch, before))
     if c['file_rt']:
         seg = synth.write_read(seg, hd.seg.segread)
     return seg
@@ -822,6 +1049,69 @@ def _layout_buffer(A, layout):
     if layout == '>f8':
         return np.array(A, dtype='>f8')
     raise ValueError(layout)
+
+
+def _mem_cast(a, c):
+    import numpy as np
+    return a.astype({'u1': np.uint8, 'u2': np.uint16, 'b1': np.bool_, 'f4': np.float32, 'f8': np.float64}[c['mem']['dt']])
+
+
+def _mem_array(a, lay):
+    """(view, base): a numpy view with the values of `a` laid out in memory as `lay` says, and the memory block
+    it lives in (everything outside the view holds 1 - a value that would pass for a pixel)"""
+    import numpy as np
+    nd = a.ndim
+    q = [k for k in lay['q'] if k < nd]
+    big = [lay['pads'][k][0] + (a.shape[k] - 1) * lay['steps'][k] + 1 + lay['pads'][k][1] for k in range(nd)]
+    base = np.ones([big[k] for k in q], dtype=a.dtype)
+    v = base.transpose([q.index(k) for k in range(nd)])
+    assert list(v.shape) == big
+    index = []
+    for k in range(nd):
+        p0, st, n = lay['pads'][k][0], lay['steps'][k], a.shape[k]
+        if lay['flips'][k]:
+            index.append(slice(p0 + (n - 1) * st, p0 - 1 if p0 > 0 else None, -st))
+        else:
+            index.append(slice(p0, p0 + (n - 1) * st + 1, st))
+    v = v[tuple(index)]
+    assert v.shape == a.shape and v.base is not None
+    v[...] = a
+    if lay['ro']:
+        v.flags.writeable = False
+    return v, base
+
+
+def _mem_volume(c, arr, for_uid, chans):
+    """hd.Volume for a 'vol_mem' case: the source volume W is built on a numpy view and brought to the volume
+    the case describes by the Volume API operation; returns the volume and the memory block to watch"""
+    import numpy as np
+    import highdicom as hd
+    m = c['mem']
+    pos, d, sp, (warr,), index = _vapi_source(c, [arr])
+    A = np.eye(4)
+    for k in range(3):
+        A[:3, k] = np.array([float(x) for x in d[k]]) * float(sp[k])
+    A[:3, 3] = [float(x) for x in pos]
+    view, base = _mem_array(warr, m['lay'])
+    if m['op'] == 'with_array':
+        vol = hd.VolumeGeometry(A, view.shape[:3], coordinate_system='PATIENT',
+                                frame_of_reference_uid=for_uid).with_array(view, channels=chans)
+    else:
+        vol = hd.Volume(view, A, coordinate_system='PATIENT', frame_of_reference_uid=for_uid, channels=chans)
+    if m['op'] in ('permute', 'flip'):
+        if m['flips']:
+            vol = vol.flip_spatial(list(m['flips']))
+        if m['op'] == 'permute':
+            vol = vol.permute_spatial_axes(list(m['p']))
+    elif m['op'] == 'swap':
+        vol = vol.swap_spatial_axes(*m['ab'])
+    elif m['op'] == 'tpo':
+        vol = vol.to_patient_orientation(_closest_orientation(c['d']))
+    elif m['op'] == 'crop':
+        vol = vol[index]
+    if m['copy']:
+        vol = vol.copy()
+    return vol, [base]
 
 
 def _hist_volume(c, arr, A, for_uid, chans):
@@ -928,10 +1218,15 @@ def _run_place(c):
     src_org, usr_org, rc, cc, spr, spc, sbs = _place_eff(c)
     MR, MC = c['MR'], c['MC']
     mask = np.array(c['M'], np.uint8).reshape(1, MR, MC)
+    mbase = None
+    if c.get('mem'):
+        mask, mbase = _mem_array(_mem_cast(mask, c), c['mem']['lay'])
     kw = {'tile_pixel_array': True, 'omit_empty_frames': c['omit'],
           'dimension_organization_type': 'TILED_FULL' if (c['tiled_full'] and not c['omit']) else 'TILED_SPARSE'}
     if c['tile'] is not None:
         kw['tile_size'] = tuple(c['tile'])
+    if c.get('mem'):
+        kw['transfer_syntax_uid'] = _TS[c['mem']['ts']]
     org = [float(x) for x in usr_org]
     if c['entry'] == 'volume':
         rcv, ccv = np.array([float(x) for x in rc]), np.array([float(x) for x in cc])
@@ -960,10 +1255,12 @@ def _run_place(c):
         given = [sm, kw.get('plane_positions'), kw.get('plane_orientation'), kw.get('pixel_measures')]
         before = copy.deepcopy(given)
         aff0 = pix.affine if c['entry'] == 'volume' else None
+        mbase0 = None if mbase is None else mbase.copy()
         seg = synth.make_seg([sm], pix, c['typ'], [1], **kw)
         # the constructor leaves the source image and the caller's position / orientation / measures alone
         untouched = (given == before and np.array_equal(mask, np.array(c['M'], np.uint8).reshape(1, MR, MC)) and
-                     (aff0 is None or np.array_equal(aff0, pix.affine)))
+                     (aff0 is None or np.array_equal(aff0, pix.affine)) and
+                     (mbase is None or np.array_equal(mbase, mbase0)))
         if c['file_rt']:
             seg = synth.write_read(seg, hd.seg.segread)
         it = seg.TotalPixelMatrixOriginSequence[0]
@@ -1001,13 +1298,13 @@ def run_impl(c):
     if k in ('std_rc', 'std_rc_err'):
         return catch(lambda: list(hd.Image._standardize_row_column_indices(
             c['rs'], c['re'], c['cs'], c['ce'], c['rows'], c['cols'], c['ai'], c['oi'])))
-    if k in ('tiled_place', 'tiled_place_err'):
+    if k in ('tiled_place', 'tiled_place_err', 'tiled_place_mem'):
         return _run_place(c)
     if k.startswith('vol') or k.startswith('src'):
         info = {}
-        if k == 'vol_hist':
+        if k in ('vol_hist', 'vol_mem', 'vol_mem_err', 'src_mem'):
             seg = catch(lambda: _build_seg(c, info))
-            if isinstance(seg, Err):      # the history made construction / encoding of a valid volume fail
+            if isinstance(seg, Err):      # the history / layout made construction / encoding of a valid volume fail
                 return [seg, seg, seg, None]
         else:
             seg = _build_seg(c, info)
@@ -1019,15 +1316,19 @@ def run_impl(c):
         binar = c['api'] == 'image' and c['typ'] != 'LABELMAP'
         full = catch(lambda: _vol_out(_get_vol(c, seg, {}), binar))
         sub = catch(lambda: _vol_out(_get_vol(c, seg, _kw(c)), binar))
-        if k == 'vol_hist':
+        if k in ('vol_hist', 'vol_mem', 'vol_mem_err', 'src_mem'):
             return [geo, full, sub, info.get('untouched')]
         return [geo, full, sub]
-    if k in ('tiled', 'tiled_err'):
+    if k in ('tiled', 'tiled_err', 'tiled_mem'):
         sm = _build_sm(c)
         if c['api'] == 'seg':
             mask = np.array(c['M'], np.uint8).reshape(1, c['R'], c['C'])
+            mkw = {}
+            if c.get('mem'):
+                mask = _mem_array(_mem_cast(mask, c), c['mem']['lay'])[0]
+                mkw['transfer_syntax_uid'] = _TS[c['mem']['ts']]
             obj = synth.make_seg([sm], mask, c['typ'], [1], tile_pixel_array=True, omit_empty_frames=c['omit'],
-                                 tile_size=(c['th'], c['tw']),
+                                 tile_size=(c['th'], c['tw']), **mkw,
                                  dimension_organization_type='TILED_FULL' if (c['tiled_full'] and not c['omit'])
                                  else 'TILED_SPARSE')
             g = obj.get_volume_geometry()
@@ -1134,6 +1435,7 @@ def coq_term(c):
     if k in ('std_rc', 'std_rc_err'):
         return (f"(run_std_rc {optz(c['rs'])} {optz(c['re'])} {optz(c['cs'])} {optz(c['ce'])} "
                 f"{zlit(c['rows'])} {zlit(c['cols'])} {_b(c['ai'])} {_b(c['oi'])})")
+    k = {'tiled_mem': 'tiled', 'tiled_place_mem': 'tiled_place'}.get(k, k)
     if k in ('tiled_place', 'tiled_place_err'):
         src_org = [c['origin'][0], c['origin'][1], c['srcz'] or '0']
         usr_org = [F(a) + F(b) for a, b in zip(src_org, c['d'])]
@@ -1151,7 +1453,23 @@ def coq_term(c):
         st = (f"(seg_from_volume {_v3(c['pos'])} {_v3(d[0])} {_v3(d[1])} {_v3(d[2])} "
               f"{qlit(F(sp[0]))} {qlit(F(sp[1]))} {qlit(F(sp[2]))} {zlit(c['R'])} {zlit(c['C'])} "
               f"{_planes(c['arr'])} {_b(c['omit'])})")
-        run = 'run_stored_hist' if k == 'vol_hist' else 'run_stored'
+        if k.startswith('vol_mem') and (c['mem'].get('bad') or c['mem']['op'] in ('permute', 'swap', 'tpo', 'flip')):
+            # the volume W the Volume API calls start from; the model makes the calls
+            import numpy as np
+            m = c['mem']
+            pos, dW, spW, (lab,), _ = _vapi_source(c, [np.array(c['arr'], dtype=int).reshape(c['S'], c['R'], c['C'])])
+            W = (f"(QVol {_v3(pos)} {_v3(dW[0])} {_v3(dW[1])} {_v3(dW[2])} {qlit(spW[0])} {qlit(spW[1])} "
+                 f"{qlit(spW[2])} {_planes(lab.tolist())})")
+            if m['op'] == 'swap':
+                rv = f"(qvol_swap {zlit(m['ab'][0])} {zlit(m['ab'][1])} {W})"
+            elif m['op'] == 'flip':
+                rv = f"(qvol_flip {zl(m['flips'])} {W})"
+            elif m['flips']:
+                rv = f"(bind (qvol_flip {zl(m['flips'])} {W}) (qvol_permute {zl(m['p'])}))"
+            else:
+                rv = f"(qvol_permute {zl(m['p'])} {W})"
+            return f"(run_stored_vapi {_b(c['allow_missing'])} {rv} {_b(c['omit'])} {_args(c)})"
+        run = 'run_stored_hist' if k in ('vol_hist', 'vol_mem') else 'run_stored'
         return f"({run} {_b(c['allow_missing'])} {st} {_args(c)})"
     if k.startswith('src') and c.get('form'):
         planes = '[' + '; '.join(f"({_v3(p)}, {zll(a)})" for p, a in _img_kept(c)) + ']'
@@ -1163,7 +1481,8 @@ def coq_term(c):
         st = (f"(seg_from_sources {ps} {_v3(c['rowcos'])} {_v3(c['colcos'])} {qlit(F(c['spr']))} {qlit(F(c['spc']))} "
               f"{_optq(c['sbs'] if c['src_has_sbs'] else None)} {zlit(c['R'])} {zlit(c['C'])} "
               f"{_planes(c['arr'])} {_b(c['omit'])})")
-        return f"(run_stored {_b(c['allow_missing'])} {st} {_args(c)})"
+        run = 'run_stored_hist' if k == 'src_mem' else 'run_stored'
+        return f"({run} {_b(c['allow_missing'])} {st} {_args(c)})"
     if k in ('tiled', 'tiled_err'):
         pos = [c['origin'][0], c['origin'][1], c.get('srcz') or '0']
         return (f"(run_tiled {_b(c['api'] == 'seg')} {_v3(pos)} {_v3(c['rowcos'])} {_v3(c['colcos'])} "
@@ -1419,15 +1738,22 @@ def oracle(c, out):
             want = [rr[0] + o, rr[1] + o, cr[0] + o, cr[1] + o]
             return None if list(out) == want else f'returned {out}, documented meaning {want}'
         return None
+    k = {'tiled_mem': 'tiled', 'tiled_place_mem': 'tiled_place'}.get(k, k)
     if k in ('tiled_place', 'tiled_place_err'):
         return _oracle_place(c, out)
     if k.startswith('vol') or k.startswith('src'):
-        if k == 'vol_hist':
+        if k in ('vol_hist', 'vol_mem', 'vol_mem_err', 'src_mem'):
             if not isinstance(out, list) or len(out) != 4:
                 return f'unexpected output {out}'
+            if k == 'vol_mem_err':
+                return None if isinstance(out[1], Err) and out[3] is None else \
+                    f'malformed Volume API call accepted ({c["mem"]["op"]}, {c["mem"]})'
             if isinstance(out[1], Err) and out[3] is None:
-                return (f'a valid volume could not be built / encoded after the caller re-used its buffers '
-                        f'({c["hist"]}): {out[1]}')
+                if k == 'vol_hist':
+                    return (f'a valid volume could not be built / encoded after the caller re-used its buffers '
+                            f'({c["hist"]}): {out[1]}')
+                return (f'a valid pixel array could not be built / encoded in this memory layout / dtype / transfer '
+                        f'syntax ({c["mem"]}): {out[1]}')
             if out[3] is not True:
                 return 'encoding the segmentation modified the caller\'s affine buffer / pixel array'
             out = out[:3]
@@ -1586,6 +1912,24 @@ def nontrivial(c, out):
 
 def shrink(c):
     k = c['kind']
+    if c.get('mem') and not c['mem'].get('bad'):
+        m = c['mem']
+        if m.get('op') is not None:
+            yield dict(c, mem=dict(m, op=None, p=[0, 1, 2], flips=[], crop=None, ab=None))
+        if m.get('copy'):
+            yield dict(c, mem=dict(m, copy=False))
+        if m['ts'] != 'explicit':
+            yield dict(c, mem=dict(m, ts='explicit'))
+        if m['dt'] != 'u1':
+            yield dict(c, mem=dict(m, dt='u1'))
+        lay = m['lay']
+        n = len(lay['q'])
+        for key, plain in (('q', list(range(n))), ('flips', [False] * n), ('steps', [1] * n),
+                           ('pads', [[0, 0] for _ in range(n)]), ('ro', False)):
+            if lay[key] != plain:
+                yield dict(c, mem=dict(m, lay=dict(lay, **{key: plain})))
+        if lay['q'] != list(range(n)):
+            yield dict(c, mem=dict(m, lay=dict(lay, q=[0, 2, 1] + list(range(3, n)))))
     if k.startswith('vol') or k.startswith('src'):
         for key in ('ss', 'se', 'rs', 're', 'cs', 'ce'):
             if c.get(key) is not None:
